@@ -112,6 +112,12 @@ def _num_blocks_in_args(*args, **kwargs):
 
 def _block_args_kwargs(num_blocks, *args, **kwargs):
     """Construct nested args/kwargs for each BlockArray block."""
+    for arg in (*args, *kwargs.values()):
+        if isinstance(arg, BlockArray) and len(arg) != num_blocks:
+            raise TypeError(
+                f"Block array arguments with different numbers of blocks ({num_blocks} and "
+                f"{len(arg)}) cannot be mapped over corresponding blocks."
+            )
     new_args = []
     new_kwargs = []
     for i in range(num_blocks):
